@@ -81,7 +81,7 @@ def run_tlc(
 ) -> TLCResult:
     """Run TLC on spec/<module>.tla with spec/<cfg> (default <module>.cfg)."""
     meta = fresh_dir(f"tlc_{tag}")
-    cfgfile = SPEC / (cfg or f"{module}.cfg")
+    cfgfile = Path(cfg) if cfg and os.path.isabs(str(cfg)) else SPEC / (cfg or f"{module}.cfg")
     cmd = ["tlc", "-workers", str(workers), "-metadir", str(meta), "-noGenerateSpecTE",
            "-config", str(cfgfile)]
     if simulate:
